@@ -280,9 +280,18 @@ pub fn run(args: &Args) {
 
     // (B) random ABNF sentences, (C) metamorphic parenthesisation of generated trees
     let strict = Opts::strict();
+    let mut wide_done = 0u32; // (a tree several hundred operands wide costs about a second to compare: at most 150 per shard)
     for n in 0..args.n {
         let mut rng = Rng::derive(args.seed, args.shard + 2000, n);
-        if n % 512 == 6 {
+        if n % 32 == 7 {
+            // delimiter characters as text inside groups, multi-selects, filters and calls
+            let text = refimpl::sentence::bracket_text_case(&mut rng);
+            let (o, _) = compare_tree(&mut rep, &text, "bracket-text");
+            if o != Outcome::NotComparable && n % 128 == 7 {
+                rep.nontrivial(fnv(text.as_bytes()));
+            }
+        } else if n % 512 == 6 && wide_done < 150 {
+            wide_done += 1;
             // many small expressions side by side (nothing deep): the tree is the reference's, whatever the count
             // (comparing trees several hundred operands wide costs about a second each: a few dozen per shard)
             let text = refimpl::sentence::wide_case_upto(&mut rng, 260);
